@@ -147,12 +147,87 @@ Section Gather.
     end.
 End Gather.
 
+(* ---------- the merge of the per-scan requirements, as coded ----------
+   gather.rs collect_scans, on every Scan it visits (`required: BTreeMap<String, Option<BTreeSet<String>>>`):
+     match (required.get_mut(&scan.table_name), cols) {
+         (None, cols)                           => insert
+         (Some(existing @ Some(_)), Some(more)) => set.extend(more)
+         (Some(existing), None)                 => *existing = None        // widest wins: None absorbs everything
+         (Some(None), Some(_))                  => {}                      // ... and stays
+     }
+   The scans arrive in visiting order (a node's inputs, then the subquery plans of its expressions), so the same table
+   may be met all-columns first, last or in the middle of narrower scans. *)
+Definition rmap := list (nat * option (list nat)).        (* at most one entry per table *)
+Fixpoint rlookup (m : rmap) (t : nat) : option (option (list nat)) :=
+  match m with [] => None | (t', v) :: r => if Nat.eqb t t' then Some v else rlookup r t end.
+Fixpoint rset (m : rmap) (t : nat) (v : option (list nat)) : rmap :=
+  match m with
+  | [] => [(t, v)]
+  | (t', v') :: r => if Nat.eqb t t' then (t, v) :: r else (t', v') :: rset r t v
+  end.
+Definition merge_one (m : rmap) (r : nat * option (list nat)) : rmap :=
+  match rlookup m (fst r), snd r with
+  | None, cols => rset m (fst r) cols
+  | Some (Some set), Some more => rset m (fst r) (Some (set ++ more))
+  | Some _, None => rset m (fst r) None
+  | Some None, Some _ => m
+  end.
+Definition merge_scans (reqs : list (nat * option (list nat))) : rmap := fold_left merge_one reqs [].
+
+(* a WRONG merge (the last arm written as a catch-all `(existing, cols) => *existing = cols`): a later, narrower scan
+   replaces "all columns" *)
+Definition merge_one_wrong (m : rmap) (r : nat * option (list nat)) : rmap :=
+  match rlookup m (fst r), snd r with
+  | None, cols => rset m (fst r) cols
+  | Some (Some set), Some more => rset m (fst r) (Some (set ++ more))
+  | Some _, cols => rset m (fst r) cols
+  end.
+Definition merge_scans_wrong (reqs : list (nat * option (list nat))) : rmap := fold_left merge_one_wrong reqs [].
+
+(* what the initiator registers for table t, read off the final map *)
+Definition merged_table (m : rmap) (t : nat) : bool := match rlookup m t with Some _ => true | None => false end.
+Definition merged_col (m : rmap) (t name : nat) : bool :=
+  match rlookup m t with Some None => true | Some (Some l) => memn name l | None => false end.
+
+(* in which order did the walk meet the scans of one table: all-columns before a narrower one, after one, between two *)
+Definition narrower_later (reqs : list (nat * option (list nat))) (t : nat) : bool :=
+  existsb (fun r => Nat.eqb (fst r) t && match snd r with Some _ => true | None => false end) reqs.
+Fixpoint all_then_narrower (reqs : list (nat * option (list nat))) : bool :=
+  match reqs with
+  | [] => false
+  | (t, None) :: r => narrower_later r t || all_then_narrower r
+  | _ :: r => all_then_narrower r
+  end.
+Fixpoint narrower_then_all (reqs : list (nat * option (list nat))) : bool :=
+  match reqs with
+  | [] => false
+  | (t, Some _) :: r => existsb (fun x => Nat.eqb (fst x) t && match snd x with None => true | Some _ => false end) r
+                        || narrower_then_all r
+  | _ :: r => narrower_then_all r
+  end.
+Fixpoint all_in_middle (reqs : list (nat * option (list nat))) : bool :=
+  match reqs with
+  | [] => false
+  | (t, Some _) :: r =>
+      (fix go (l : list (nat * option (list nat))) : bool :=
+         match l with
+         | [] => false
+         | (t', None) :: l' => (Nat.eqb t' t && narrower_later l' t) || go l'
+         | _ :: l' => go l'
+         end) r || all_in_middle r
+  | _ :: r => all_in_middle r
+  end.
+Fixpoint scans_of_table (reqs : list (nat * option (list nat))) (t : nat) : nat :=
+  match reqs with [] => 0%nat | r :: l => ((if Nat.eqb (fst r) t then 1 else 0) + scans_of_table l t)%nat end.
+
 (* ---------- comparison with the engine's GatherPlan (tables by index, columns by name id; None = all) ---------- *)
 Definition req_of_table (req : list (nat * option (list nat))) (schema : nat -> list nat) (t : nat) : option (option (list nat)) :=
-  if gathered_table req t
-  then Some (if gathered_all req t then None
-             else Some (filter (fun f => gathered_col req t f) (schema t)))     (* schema order, as plan_gather lists them *)
-  else None.
+  let m := merge_scans req in
+  match rlookup m t with
+  | None => None
+  | Some None => Some None
+  | Some (Some _) => Some (Some (filter (fun f => merged_col m t f) (schema t)))     (* schema order, as plan_gather lists them *)
+  end.
 Definition opt_list_eqb (a b : option (list nat)) : bool :=
   match a, b with None, None => true | Some x, Some y => list_eqb Nat.eqb x y | _, _ => false end.
 Definition req_eqb (schema : nat -> list nat) (ntables : nat) (impl model : list (nat * option (list nat))) : bool :=
